@@ -44,9 +44,22 @@ class LockRoles:
                     return [x for v in local_vals[fe.id] for x in lock_factories(v, depth - 1)]
                 return [r.path(fe)]
 
-            def builds_lock(v: ast.AST) -> bool:
+            def builds_lock(v: ast.AST, depth: int = 2) -> bool:
                 if isinstance(v, ast.IfExp):
-                    return builds_lock(v.body) and builds_lock(v.orelse)
+                    return builds_lock(v.body, depth) and builds_lock(v.orelse, depth)
+                if isinstance(v, ast.Call) and isinstance(v.func, ast.Attribute) and isinstance(v.func.value, ast.Name) \
+                        and v.func.value.id == 'self' and depth > 0:
+                    # a factory method of the class (`self._make_thread_lock()`): every value it returns builds a lock
+                    m_ = u.scopes.get(f'{c.qualname}.{v.func.attr}')
+                    if m_ is not None and not m_.is_async and not m_.is_generator:
+                        rets_ = [x for x in own_nodes(m_.node) if isinstance(x, ast.Return)]
+                        rm_ = Resolver(m_)
+
+                        def one(e_: Optional[ast.AST]) -> bool:
+                            if isinstance(e_, ast.IfExp):
+                                return one(e_.body) and one(e_.orelse)
+                            return isinstance(e_, ast.Call) and rm_.path(e_.func) in ('threading.Lock', 'threading.RLock')
+                        return bool(rets_) and all(one(x.value) for x in rets_)
                 if isinstance(v, ast.Call):
                     fs = lock_factories(v.func)
                     return bool(fs) and all(f in ('threading.Lock', 'threading.RLock') for f in fs)
@@ -1151,7 +1164,7 @@ def _rule_lock_kind(ctx: Ctx, r: LockRoles) -> None:
     from ..sym import enum_paths, sym_env, subst, simplify
     init = r.init
     p = ctx.program
-    g = build(init, p)
+    g = build(init, p, inline_methods=True)      # (a private factory method that picks the lock class is part of the constructor)
     res = g.res
     stores = [n for n in g.nodes if n.kind == 'store_attr' and n.meta['attr'] == r.tl]
     rp = next((x for x in init.params if 'reentrant' in x), None)
